@@ -139,7 +139,7 @@ func c07(r *ev.Result, tier string) {
 	}
 
 	/* (a) address precedence. */
-	params := [][2]string{{"", ""}, {"p.example:8443", "p.example:8443"}, {"p.example/x~y", "p.example%2Fx%7Ey"}, {"[2001:db8::1]:8443", "%5B2001:db8::1%5D:8443"}}
+	params := [][2]string{{"", ""}, {"p.example:8443", "p.example:8443"}, {"p.example/x~y", "p.example%2Fx%7Ey"}, {"[2001:db8::1]:8443", "%5B2001:db8::1%5D:8443"}, {"redir.example/static/p\xc3\xa4th", "redir.example%2Fstatic%2Fp%C3%A4th"}}
 	hosts := [][2]string{{"", ""}, {"host.example", "host.example"}, {"host.example:8443", "host.example:8443"}, {"[::1]:4444", "[::1]:4444"}, {"[2001:db8::10]", "[2001:db8::10]"}, {"192.0.2.9:8443", "192.0.2.9:8443"}, {"b\xc3\xbccher.example", "xn--bcher-kva.example"}, {"m\xc3\xbcnchen.example:4444", "xn--mnchen-3ya.example:4444"}}
 	seen := map[string]bool{}
 	for _, listen := range []string{"127.0.0.1:0", "[::1]:0"} {
@@ -156,7 +156,7 @@ func c07(r *ev.Result, tier string) {
 				if form && "" == p[0] {
 					continue
 				}
-				for _, hdr := range []string{"", "h.example:9443"} {
+				for _, hdr := range []string{"", "h.example:9443", "10.0.0.1:8443/caf\xc3\xa9"} {
 					for _, h := range hosts {
 						for _, sni := range []string{"", "sni.example"} {
 							q := c07Req{Param: p[0], ParamWire: p[1], Form: form, Header: hdr, Host: h[0], HostWant: h[1], SNI: sni}
@@ -327,8 +327,29 @@ func c07Templates(r *ev.Result, base string, depth int) {
 		}
 		tf := filepath.Join(base, fmt.Sprintf("tmpl-%d-%s", hi, init))
 		defer os.Remove(tf)
+		/* Every other history has the configured path be a symbolic link
+		that each write re-points at a new file (a release directory, a
+		mounted configuration): the path as configured is what counts. */
+		viaLink := 1 == hi%2
+		nWritten := 0
+		writeT := func(content string) {
+			if !viaLink {
+				os.WriteFile(tf, []byte(content), 0o644)
+				return
+			}
+			nWritten++
+			target := fmt.Sprintf("%s.v%d", tf, nWritten)
+			os.WriteFile(target, []byte(content), 0o644)
+			os.Symlink(filepath.Base(target), tf+".new")
+			os.Rename(tf+".new", tf)
+		}
+		defer func() {
+			for k := 1; k <= nWritten; k++ {
+				os.Remove(fmt.Sprintf("%s.v%d", tf, k))
+			}
+		}()
 		if "remove" != init {
-			os.WriteFile(tf, []byte(contents[init]), 0o644)
+			writeT(contents[init])
 		}
 		h = append([]string{init + "@start"}, h...)
 		w, err := hworld.Start(hworld.Config{Tmplf: tf})
@@ -348,7 +369,7 @@ func c07Templates(r *ev.Result, base string, depth int) {
 			} else if "remove" == op {
 				os.Remove(tf)
 			} else {
-				os.WriteFile(tf, []byte(contents[op]), 0o644)
+				writeT(contents[op])
 			}
 			for rq := 0; rq < 2; rq++ {
 				res, err := c.Do(hworld.Get("/c?c2=cb.example", w.Addr))
@@ -380,7 +401,7 @@ func c07Templates(r *ev.Result, base string, depth int) {
 				if "" != bad {
 					r.Violate(ev.Violation{
 						Signature: "template/" + op + fmt.Sprintf("/request%d", rq+1),
-						What:      fmt.Sprintf("history %v, after step %d (%s), request %d: %s (status %d, body %q)", h, step+1, op, rq+1, bad, res.Status, trunc80(body)),
+						What:      fmt.Sprintf("history %v (template path is a symbolic link: %v), after step %d (%s), request %d: %s (status %d, body %q)", h, viaLink, step+1, op, rq+1, bad, res.Status, trunc80(body)),
 						Kind:      "c07", Replay: map[string]any{"template_history": h},
 					})
 				}
